@@ -52,6 +52,9 @@ def tags(spec, cfg=None):
             out.append("concat-batch>1")
         if o["code"] == "CONCATENATION" and spec["tensors"][o["outputs"][0]]["dtype"] == "int32":
             out.append("concat-int32")
+    for c in spec.get("corners", []):  # corner features applied by lib/corners.py: "odd-quant/huge/activation" -> "corner:odd-quant/huge"
+        parts = c.split("/")
+        out.append("corner:" + "/".join(parts[:2] if parts[0] == "odd-quant" else parts[:1]))
     consumed = set(t for o in spec["ops"] for t in o["inputs"])
     if any(t in consumed for t in spec["outputs"]):
         out.append("output-has-consumer")
